@@ -1,8 +1,9 @@
 /-!
 # `Snapshot` as a resource machine (`snapshot.go`)
 
-What a `Snapshot` call does to the three resources it touches — the recorder slot of the
-collection, open file descriptors, temporary files — for every combination of faults. Which
+What a `Snapshot` call does to the four resources it touches — the recorder slot of the
+collection, open file descriptors, temporary files, running compressor goroutines (every
+`s2.NewWriter` starts one that only `Close` stops) — for every combination of faults. Which
 clean-up actions exist is a parameter (`SnapCfg`), read from the source by the skeleton extractor.
 -/
 namespace ColumnVerif.SnapRes
@@ -11,6 +12,7 @@ structure Res where
   recorder : Bool      -- a recorder is installed (`c.record != nil`)
   fds : Nat            -- open descriptors
   temps : Nat          -- temporary files on disk
+  workers : Nat := 0   -- running compressor goroutines (with their buffers)
   deriving DecidableEq, Repr
 
 /-- the faults of one call: the environment's choices -/
@@ -24,29 +26,34 @@ structure Faults where
 structure SnapCfg where
   defersCleanup : Bool     -- `defer os.Remove`, `defer recorder.Close()`, `defer c.recorderClose()` right after the recorder is opened
   casCleans : Bool         -- a refused second snapshot closes and removes its own temp log
+  closesCompressors : Bool := true  -- the state compressor is closed after `writeState`, `Log.Close` closes the log's compressor (defect D27 before)
   deriving DecidableEq, Repr
 
-def SnapCfg.good : SnapCfg := ⟨true, true⟩
+def SnapCfg.good : SnapCfg := ⟨true, true, true⟩
 
 /-- one `Snapshot(dst)` call: resulting resources and whether an error is returned -/
 def snapshot (cfg : SnapCfg) (r : Res) (f : Faults) : Res × Bool :=
   if f.openTempFails then (r, true)
   else
-    -- temp log created and opened
-    let r1 : Res := { r with fds := r.fds + 1, temps := r.temps + 1 }
+    -- temp log created and opened; `commit.Open` starts the log's compressor
+    let r1 : Res := { r with fds := r.fds + 1, temps := r.temps + 1, workers := r.workers + 1 }
+    -- what `log.Close()` / `recorder.Close()` does to the workers
+    let closeLog := fun (w : Nat) => if cfg.closesCompressors then w - 1 else w
     if r.recorder then
       -- CompareAndSwap fails: another snapshot is in progress (or a recorder leaked)
-      if cfg.casCleans then (r, true) else (r1, true)
+      if cfg.casCleans then ({ r with workers := closeLog r1.workers }, true) else (r1, true)
     else
-      let r2 : Res := { r1 with recorder := true }
-      let cleaned : Res := { recorder := false, fds := r2.fds - 1, temps := r2.temps - 1 }
+      -- recorder installed; `s2.NewWriter(dst)` starts the state compressor, closed again right after `writeState`
+      -- (whether it failed or not) iff `closesCompressors`
+      let r2 : Res := { r1 with recorder := true, workers := if cfg.closesCompressors then r1.workers else r1.workers + 1 }
+      let cleaned : Res := { recorder := false, fds := r2.fds - 1, temps := r2.temps - 1, workers := closeLog r2.workers }
       if f.writeStateFails then
         if cfg.defersCleanup then (cleaned, true) else (r2, true)
       else
         -- recorderClose, then Copy
         let r3 : Res := { r2 with recorder := false }
         if cfg.defersCleanup then (cleaned, f.copyFails)
-        else ({ r3 with temps := r3.temps - 1 }, f.copyFails)   -- only `defer os.Remove` existed: the descriptor leaks
+        else ({ r3 with temps := r3.temps - 1 }, f.copyFails)   -- only `defer os.Remove` existed: the descriptor (and the log's compressor) leak
 
 /-- a history of snapshot calls -/
 def snapshots (cfg : SnapCfg) : Res → List Faults → Res × List Bool
